@@ -14,7 +14,7 @@ import (
 func init() {
 	register(&Prop{
 		ID:          "C03",
-		Explanation: "Decides the structure that binds a callback to the login that started it: in OAuthCallback every path that saves a session passed decodeState ok, then LoadCSRFCookie under the name derived from that state's nonce, then CheckOAuthState(that nonce)==true on that very cookie object; LoadCSRFCookie yields a CSRF only from a cookie of the requested name that decodeCSRFCookie accepted, which needs encryption.Validate ok and decrypts/unmarshals Validate's value; the hash/check/set methods each read the nonce field they are named after; the start flow sends encodeState(csrf.HashOAuthState()) and HashOIDCNonce() of the same object whose SetCookie succeeded before the redirect, and NewCSRF draws state and nonce from two separate encryption.Nonce calls; both cookie-name derivations cut the hashed state at the same constant and encodeState/decodeState agree on the field order.",
+		Explanation: "Decides the structure that binds a callback to the login that started it: in OAuthCallback every path that saves a session passed decodeState ok, then LoadCSRFCookie under the name derived from that state's nonce, then CheckOAuthState(that nonce)==true on that very cookie object; LoadCSRFCookie yields a CSRF only from a cookie of the requested name that decodeCSRFCookie accepted, which needs encryption.Validate ok and decrypts/unmarshals Validate's value; the hash/check/set methods each read the nonce field they are named after; the start flow sends encodeState(csrf.HashOAuthState()) and HashOIDCNonce() of the same object whose SetCookie succeeded before the redirect, and NewCSRF draws state and nonce from two separate encryption.Nonce calls; both cookie-name derivations cut the hashed state at the same constant and encodeState/decodeState agree on the field order. Added during the build: csrf.ClearCookie deletes exactly its own cookie, so completing one login leaves other outstanding logins intact (R6).",
 		NotDecided:  "the 'succeeds' direction of the biconditional and the ordering of concurrent logins (behaviour over histories); entropy of crypto/rand (trusted).",
 		Run:         runC03,
 	})
@@ -62,6 +62,7 @@ func runC03(c *Ctx) {
 	r.Rule("R2-csrf-load", "LoadCSRFCookie returns a CSRF only from a same-named cookie that decodeCSRFCookie accepted; decodeCSRFCookie needs Validate ok", 2)
 	r.Rule("R3-field-agreement", "hash/check/set methods read the nonce field they are named after", 6)
 	r.Rule("R4-start-side", "login URL carries encodeState(csrf.HashOAuthState()) and HashOIDCNonce() of the object whose cookie was set before the redirect; NewCSRF uses two Nonce calls", 6)
+	r.Rule("R6-clears-own-cookie-only", "csrf.ClearCookie deletes exactly its own cookie", 2)
 	r.Rule("R5-name-agreement", "cookieName and ExtractStateSubstring cut the hashed state at the same constant; encodeState/decodeState agree on field order", 4)
 
 	a := c.cbAnchors("R1-callback-gating")
@@ -69,6 +70,7 @@ func runC03(c *Ctx) {
 		return
 	}
 	c.checkCallbackSave("R1-callback-gating", a, FacetState, "save-needs-state-check")
+	runC03R6(c)
 
 	runC03R2Rule(c, "R2-csrf-load")
 
@@ -403,10 +405,10 @@ func runC03R2Rule(c *Ctx, rule string) {
 	}
 	decodeCSRF := c.Fn(rule, "pkg/cookies.decodeCSRFCookie")
 	validate := c.Fn(rule, "pkg/encryption.Validate")
-	decrypt := c.Fn(rule, "pkg/cookies.decrypt")
+	decryptM := c.Method(rule, "pkg/encryption.Cipher.Decrypt")
 	unmarshal := c.StdFunc(rule, "github.com/vmihailenco/msgpack/v5.Unmarshal")
 	cookieNameF := c.P.Field("net/http.Cookie.Name")
-	if decodeCSRF != nil && validate != nil && decrypt != nil && unmarshal != nil && cookieNameF != nil {
+	if decodeCSRF != nil && validate != nil && decryptM != nil && unmarshal != nil && cookieNameF != nil {
 		c.Walk(rule, a.loadCSRF, func(p *walk.Path) {
 			rv, ok := p.ReturnDV(0)
 			if !ok || DefinitelyNil(p, rv, p.End()) {
@@ -449,7 +451,7 @@ func runC03R2Rule(c *Ctx, rule string) {
 				c.bad(rule, key, p.Exit, "decodeCSRFCookie returns a CSRF on a path where encryption.Validate(cookie) was not ok", p, p.End())
 				return
 			}
-			dcr, ok := Has(p, p.End(), Need{M: walk.Static(decrypt), Idx: 1, Out: ErrNil, Where: func(p *walk.Path, k walk.Call) bool {
+			dcr, ok := Has(p, p.End(), Need{M: walk.Invoke(c.P, decryptM), Idx: 1, Out: ErrNil, Where: func(p *walk.Path, k walk.Call) bool {
 				return ResultIs(p, p.Arg(k, 0), vc, 0)
 			}})
 			if !ok {
@@ -466,4 +468,43 @@ func runC03R2Rule(c *Ctx, rule string) {
 		})
 	}
 
+}
+
+// runC03R6: finishing one login deletes exactly that login's CSRF cookie.
+func runC03R6(c *Ctx) {
+	rule := "R6-clears-own-cookie-only"
+	clear := c.Fn(rule, "(*pkg/cookies.csrf).ClearCookie")
+	mk := c.Fn(rule, "pkg/cookies.MakeCookieFromOptions")
+	cookieName := c.Fn(rule, "(*pkg/cookies.csrf).cookieName")
+	setCookie := c.StdFunc(rule, "net/http.SetCookie")
+	if clear == nil || mk == nil || cookieName == nil || setCookie == nil {
+		return
+	}
+	c.Walk(rule, clear, func(p *walk.Path) {
+		if _, ok := p.Exit.(*ssa.Return); !ok {
+			return
+		}
+		n := 0
+		for _, sc := range p.Find(walk.Static(setCookie), p.End()) {
+			n++
+			key := "deletion|" + fnKey(clear)
+			mc, ok := extractOfCall(p, p.Arg(sc, 1), 0)
+			okOwn := false
+			if ok && mc.C.StaticCallee() == mk {
+				if nc, ok := extractOfCall(p, p.Arg(mc, 1), 0); ok && nc.C.StaticCallee() == cookieName && p.Resolve(p.Arg(nc, 0)).V == clear.Params[0] {
+					okOwn = true
+				}
+			}
+			if okOwn {
+				c.ok(rule, key, sc.In, "deletes the cookie named c.cookieName()")
+			} else {
+				c.bad(rule, key, sc.In, "completing a login deletes a cookie other than this login's own CSRF cookie: other outstanding logins of the browser can no longer complete", p, sc.Idx)
+			}
+		}
+		if n != 1 {
+			c.bad(rule, "count|"+fnKey(clear), p.Exit, sprintf("ClearCookie emits %d deletions on this path instead of exactly one", n), p, p.End())
+		} else {
+			c.ok(rule, "count|"+fnKey(clear), p.Exit, "exactly one deletion")
+		}
+	})
 }
